@@ -18,9 +18,10 @@ if [ "$demo" != "-" ]; then
   t=$(grep -o 'func TestSeeded[0-9A-Za-z_]*' "$demo" | head -1 | sed 's/func //')
   cp "$demo" "$ddir/zz_seeded_demo_test.go"
   if go test -count=1 -run "^$t\$" "./$ddir" >"$out/demo_with.txt" 2>&1; then echo "demo with change: PASS (unexpected)"; else echo "demo with change: fails (expected)"; fi
-  git stash -q -- $(git diff --name-only) 2>/dev/null
+  # (no git stash: the stash stack is shared by all worktrees of /repo)
+  git apply -R "$patch"
   if go test -count=1 -run "^$t\$" "./$ddir" >"$out/demo_without.txt" 2>&1; then echo "demo without change: passes (expected)"; else echo "demo without change: FAILS (unexpected)"; fi
-  git stash pop -q
+  git apply "$patch"
   rm -f "$ddir/zz_seeded_demo_test.go"
 fi
 for p in "$@"; do
